@@ -28,7 +28,7 @@ case "${1:-}" in
     build_race
     echo "setup ok"
     ;;
-  C14|C17|C18)
+  C01|C14|C17|C18)
     id=$1; tier=${2:-${VERIF_TIER:-quick}}
     build_sched
     if [ "$id" = C18 ]; then build_race && export VERIF_RACE_BIN="$BIN/vrace"; fi
